@@ -600,3 +600,40 @@ silent("c03-s-memoize-cache-ifexp-none", "C03", INTERP,
        "        assert cache is None or isinstance(cache, dict)\n        self.cache = {} if cache is None else cache")
 rename("C03", INTERP, "Memoize.__init__")
 rename("C02", "funsor/constant.py", "eager_reduce_add")
+
+# ----------------------------------------------------------------------------------------------------------------- C15 limits (R15.8 / R15.9)
+NUMPY_LOG = "funsor/einsum/numpy_log.py"
+fire("c15-logaddexp-array-unclamped", "C15", ARRAY,
+     "    shift = np.clip(max(detach(x), detach(y)), finfo.min, None)\n", "    shift = max(detach(x), detach(y))\n", "R15.8", "_safe_logaddexp_tensor_tensor")
+fire("c15-logaddexp-clamped-above-not-below", "C15", ARRAY,
+     "    shift = np.clip(max(detach(x), detach(y)), finfo.min, None)\n", "    shift = np.clip(max(detach(x), detach(y)), None, finfo.max)\n", "R15.8", "_safe_logaddexp_tensor_tensor")
+fire("c15-logaddexp-number-clamp-ignores-finfo", "C15", ARRAY,
+     "    shift = np.clip(detach(y), max(x, finfo.min), None)\n", "    shift = np.clip(detach(y), x, None)\n", "R15.8", "_safe_logaddexp_number_tensor")
+fire("c15-logsumexp-no-finite-guard", "C15", ARRAY,
+     "    amax = np.where(np.isfinite(amax), amax, 0.0)\n", "", "R15.8", "logsumexp")
+fire("c15-logeinsum-clamp-dropped", "C15", NUMPY_LOG,
+     "        shift = ops.clamp(shift, ops.finfo(shift).min, None)\n", "", "R15.8", "einsum")
+fire("c15-scalar-log-of-nan", "C15", BUILTIN,
+     "    return math.log(x) if x > 0 else -math.inf", "    return math.log(x) if x != 0 else -math.inf", "R15.8", "logaddexp")
+fire("c15-safesub-array-unclamped", "C15", ARRAY,
+     "    return x + np.clip(-y, None, finfo.max)", "    return x - y", "R15.9", "_safesub")
+fire("c15-safediv-array-unclamped", "C15", ARRAY,
+     "    return x * np.clip(np.reciprocal(y), None, finfo.max)", "    return x * np.reciprocal(y)", "R15.9", "_safediv")
+fire("c15-reciprocal-array-unclamped-then-scaled", "C15", ARRAY,
+     "    result = np.clip(np.reciprocal(x), None, np.finfo(x.dtype).max)\n", "    result = np.reciprocal(x) * 0.0 + np.reciprocal(x)\n", "R15.9", "_reciprocal")
+fire("c15-safesub-scalar-plain-sub", "C15", BUILTIN,
+     "        return x + _builtin_min(-y, sys.float_info.max)", "        return sub(x, y)", "R15.9", "safesub")
+silent("c15-s-logaddexp-clamp-via-maximum", "C15", ARRAY,
+       "    shift = np.clip(max(detach(x), detach(y)), finfo.min, None)\n", "    shift = np.maximum(np.maximum(detach(x), detach(y)), finfo.min)\n")
+silent("c15-s-logaddexp-two-step", "C15", ARRAY,
+       "    shift = np.clip(max(detach(x), detach(y)), finfo.min, None)\n", "    biggest = max(detach(x), detach(y))\n    shift = np.clip(biggest, finfo.min, None)\n")
+silent("c15-s-logsumexp-guard-via-clip", "C15", ARRAY,
+       "    amax = np.where(np.isfinite(amax), amax, 0.0)\n", "    amax = np.clip(amax, np.finfo(amax.dtype).min, None)\n")
+silent("c15-s-logeinsum-masked-clamp-on-copy", "C15", NUMPY_LOG,
+       "        shift = ops.clamp(shift, ops.finfo(shift).min, None)\n",
+       "        finfo = ops.finfo(shift)\n        shift = shift + 0.0\n        shift[shift < finfo.min] = finfo.min\n")
+silent("c15-s-safesub-negate-first", "C15", ARRAY,
+       "    return x + np.clip(-y, None, finfo.max)", "    neg_y = np.negative(y)\n    return x + np.clip(neg_y, None, finfo.max)")
+rename("C15", NUMPY_LOG, "einsum")
+rename("C15", ARRAY, "_safesub")
+rename("C15", ARRAY, "_safediv")
